@@ -169,6 +169,82 @@ def correspondences(tier, rng):
             return ([(fl, xy) for fl, xy in got], list(b[pos + xlen + ylen:]))
         return res(go)
     out.append(Corr("decompileCoordinates", dcases, impl_glyf_decode))
+    # cmap formats 12 / 13: compile from a character map, decompile of compiled and of damaged / hand-made subtables
+    from fontTools.ttLib import TTFont
+    from fontTools.ttLib.tables._c_m_a_p import cmap_format_12, cmap_format_13
+    import struct as _st
+    NG = 300
+    cfont = TTFont(); cfont.setGlyphOrder([".notdef"] + ["g%d" % i for i in range(1, NG)])
+    def gname(g): return ".notdef" if g == 0 else ("g%d" % g if g < NG else "gid%d" % g)          # "gidNNN": a virtual glyph ID
+    def gen_cmap():
+        k = rng.randint(0, 12); fam = rng.below(5); m = {}
+        base = rng.choice([0x20, 0x41, 0xFFF0, 0x1F600, 0x10FFF0]); g = rng.randint(0, NG - 20)
+        for _ in range(k):
+            r_ = rng.below(10)
+            if r_ < 5: base += 1; g = g + 1 if fam != 1 else g                                    # runs (format 12: stepping, 13: constant)
+            elif r_ < 8: base += rng.randint(2, 40); g = rng.randint(0, NG - 1)
+            else: base += 1; g = rng.choice([0, g, rng.randint(NG, 70000)])
+            m[base] = g
+        items = list(m.items()); rng.shuffle(items)
+        return items
+    ccases = []
+    for _ in range(N(tier, 600, 8000)):
+        fmt = rng.choice([12, 13]); items = gen_cmap()
+        reserved = rng.choice([0, 0, 1, 65535]); language = rng.choice([0, 0, 1, 2**32 - 1])
+        r_ = rng.below(40)
+        if r_ == 0 and items: items[0] = (rng.choice([-1, 2**32, 2**32 + 5]), items[0][1])                 # does not fit a uint32
+        if r_ == 1: language = 2**32
+        ccases.append(((fmt, 1 if fmt == 12 else 0, reserved, language), items))
+    def mk_sub(fmt): return cmap_format_12(12) if fmt == 12 else cmap_format_13(13)
+    def impl_cmap_compile(x):
+        (fmt, step, reserved, language), items = x
+        def go():
+            st = mk_sub(fmt); st.platformID = 3; st.platEncID = 10; st.language = language; st.reserved = reserved
+            st.cmap = {c: gname(g) for c, g in items}
+            return list(st.compile(cfont))
+        return res(go)
+    def oracle_cmap(x):
+        """the PROPERTY on the implementation: the compiled subtable decodes to the same character map (glyph 0 = not mapped)"""
+        (fmt, step, reserved, language), items = x
+        r = impl_cmap_compile(x)
+        if isinstance(r, Err): return None
+        st = mk_sub(fmt); st.decompile(bytes(r.v), cfont)
+        want = {c: gname(g) for c, g in items if g != 0}
+        got = {c: (n_ if not n_.startswith("glyph") else "gid%d" % int(n_[5:])) for c, n_ in st.cmap.items()}
+        if got != want: return "cmap format %d changed after compile/decompile: %r -> %r" % (fmt, want, got)
+        if (st.language, st.reserved) != (language, reserved): return "language/reserved changed"
+        return None
+    out.append(Corr("cmap12_compile", ccases, impl_cmap_compile, oracle=oracle_cmap))
+    dcases = []
+    for x in ccases[: len(ccases) // 2]:
+        r = impl_cmap_compile(x)
+        if isinstance(r, Err): continue
+        b = list(r.v); step = x[0][1]; r_ = rng.below(8)
+        if r_ == 0 and len(b) > 16: b = b[:rng.randint(0, len(b) - 1)]                                     # truncated
+        elif r_ == 1: b[rng.below(len(b))] ^= 1 << rng.below(8)
+        elif r_ == 2: b += [0] * rng.choice([1, 12])
+        elif r_ == 3:
+            # hand-made groups: overlapping, end before start, glyph 0
+            gs = [(rng.randint(0, 50), rng.randint(0, 60), rng.randint(0, 20)) for _ in range(rng.randint(1, 4))]
+            body = b"".join(_st.pack(">LLL", *g_) for g_ in gs)
+            b = list(_st.pack(">HHLLL", 12 if step else 13, 0, 16 + len(body), 0, len(gs)) + body)
+        # a damaged group may span billions of codes (the decoder then materialises them all): keep the expansions small
+        def span(bb):
+            if len(bb) < 16: return 0
+            ng = int.from_bytes(bytes(bb[12:16]), "big"); tot = 0
+            for gi in range(min(ng, (len(bb) - 16) // 12)):
+                s_, e_ = int.from_bytes(bytes(bb[16 + 12 * gi:20 + 12 * gi]), "big"), int.from_bytes(bytes(bb[20 + 12 * gi:24 + 12 * gi]), "big")
+                tot += max(0, e_ - s_ + 1)
+            return tot
+        if span(b) > 5000: continue
+        dcases.append((step, b))
+    def impl_cmap_decompile(x):
+        step, b = x
+        def go():
+            st = mk_sub(12 if step else 13); st.decompile(bytes(b), cfont)
+            return (((st.format, st.reserved), st.language), [(c, cfont.getGlyphID(n_)) for c, n_ in st.cmap.items()])
+        return res(go)
+    out.append(Corr("cmap12_decompile", dcases, impl_cmap_decompile))
     return out
 
 # ------------------------------------------------------------------ sweeps
